@@ -799,16 +799,16 @@ def sdkOracle (st : St) (c : SdkCons) (impl : String) : List String := Id.run do
   -- group members: the highest offset any member has yielded so far, per partition
   let mut ghi : List (Nat × Nat) := []
   for (p, o, i) in ys do
+    let groupHi : Option Nat := match ghi.find? (·.1 == p) with
+      | some (_, h) => some h
+      | none => ((resolvePart st.sys c.si c.ti p).map (·.1)).bind (fun key =>
+          ((st.sdkIds.find? (·.1 == (key, idKey c.consumer))).map (·.2)).bind (·.1))
     match last.find? (·.1 == p) with
     | some (_, l) =>
       -- `next` / `offset`: no gaps; `first` / `last` / `timestamp` ask for a fixed position again and again
       -- (a jump is what was asked for): strictly increasing.  A group member may lose a partition to another
       -- member and get it back later: for it "no gap" means nothing beyond what the GROUP has yielded is skipped
       let gapFree := match c.cons.strat with | .next => true | .offset _ => true | _ => false
-      let groupHi : Option Nat := match ghi.find? (·.1 == p) with
-        | some (_, h) => some h
-        | none => ((resolvePart st.sys c.si c.ti p).map (·.1)).bind (fun key =>
-            ((st.sdkIds.find? (·.1 == (key, idKey c.consumer))).map (·.2)).bind (·.1))
       let bad := if !gapFree then o ≤ l
         else if c.consumer.grp then o ≤ l || (o > (max l (groupHi.getD l)) + 1 && !c.cfg.polling)
         else o != l + 1
@@ -816,7 +816,7 @@ def sdkOracle (st : St) (c : SdkCons) (impl : String) : List String := Id.run do
         out := out ++ [s!"SPEC-VIOL {st.line} class=consumer-order partition={p} after={l} got={o} group-yielded-up-to={repr groupHi} impl={impl}"]
     | none => pure ()
     last := (last.filter (·.1 ≠ p)) ++ [(p, o)]
-    ghi := (ghi.filter (·.1 ≠ p)) ++ [(p, max o ((ghi.find? (·.1 == p)).map (·.2) |>.getD 0))]
+    ghi := (ghi.filter (·.1 ≠ p)) ++ [(p, max o (groupHi.getD 0))]
     let key : Option PKey := (resolvePart st.sys c.si c.ti p).map (·.1)
     match key.bind st.spec.get with
     | some sp =>
